@@ -5,34 +5,40 @@ ApiCodes == {429, 502, 503, 504, 401, 403, 404, 400, 409, 500}
 ItemCodes == {429, 502, 503, 504, 400, 409}
 ApiShapes == {"es", "errstr", "notype", "noerror", "empty", "none", "str", "bytes", "list"}
 ItemShapes == {"es", "errstr"}
+ManyShapes == {"esmany"}        \* more than ten failed items per status (bulk_index only: index sends one document)
+(* concrete classes of connection errors / timeouts that elastic_transport and elasticsearch.exceptions export *)
+(* (TlsError = elasticsearch.exceptions.SSLError is a subclass of ConnectionError)                             *)
+ConnClasses == {"ConnectionError", "TlsError"}
 Plain(k) == O(k, 0, {}, "")
-NonApi == {Ok, Plain("connTimeout"), Plain("connError"), Plain("transportOther")}
+Conn(cls) == O("connError", 0, {}, cls)
+Timeout == O("connTimeout", 0, {}, "ConnectionTimeout")
+NonApi == {Ok, Timeout, Plain("transportOther")} \cup {Conn(c) : c \in ConnClasses}
 
 (* full alphabet: every status x every body shape, every set of item statuses x every item error shape *)
 Base == NonApi \cup {ApiS(c, s) : c \in ApiCodes, s \in ApiShapes}
-BulkAll == {BulkS(S, s) : S \in (SUBSET ItemCodes) \ {{}}, s \in ItemShapes}
+BulkAll == {BulkS(S, s) : S \in (SUBSET ItemCodes) \ {{}}, s \in ItemShapes \cup ManyShapes}
 BulkOne == {BulkS({c}, s) : c \in ItemCodes, s \in ItemShapes}
 AlphaFull(kd) == IF kd = "plain" THEN Base ELSE IF kd = "bulk" THEN Base \cup BulkAll ELSE Base \cup BulkOne
 
 (* every status / set of item statuses, Elasticsearch-style bodies only (full history, small budget) *)
-AlphaEs(kd) == {o \in AlphaFull(kd) : o.shape \in {"", "es"}}
+AlphaEs(kd) == {o \in AlphaFull(kd) : o.k \notin {"api", "bulk"} \/ o.shape = "es"}
 
 (* every body shape x representative statuses (full history, small budget) *)
 AlphaShapes(kd) ==
-    {Ok, Plain("connTimeout")} \cup {ApiS(c, s) : c \in {503, 429, 404, 401}, s \in ApiShapes}
-    \cup (IF kd = "bulk" THEN {BulkS(S, s) : S \in {{429}, {429, 503}, {429, 400}, {400}}, s \in ItemShapes}
+    {Ok, Timeout} \cup {Conn(c) : c \in ConnClasses} \cup {ApiS(c, s) : c \in {503, 429, 404, 401}, s \in ApiShapes}
+    \cup (IF kd = "bulk" THEN {BulkS(S, s) : S \in {{429}, {429, 503}, {429, 400}, {400}}, s \in ItemShapes \cup ManyShapes}
           ELSE IF kd = "bulk1" THEN {BulkS(S, s) : S \in {{429}, {400}}, s \in ItemShapes} ELSE {})
 
 (* reduced alphabets for the exhaustive enumeration of all paths up to the full budget of 11 calls: *)
 (* two transient letters per kind and success (quick) or success and three fatal letters (thorough); *)
 (* fatal letters at every depth are covered by the harness's edge cover in both tiers               *)
 AlphaPathsT(kd) ==
-    IF kd = "plain" THEN {Plain("connTimeout"), ApiS(503, "str"), Ok, ApiS(401, "none"), ApiS(404, "empty"), Plain("transportOther")}
-    ELSE IF kd = "bulk" THEN {Plain("connError"), Bulk({429, 503}), Ok, Bulk({429, 400}), ApiS(403, "list"), Bulk({409})}
+    IF kd = "plain" THEN {Timeout, ApiS(503, "str"), Ok, ApiS(401, "none"), ApiS(404, "empty"), Plain("transportOther")}
+    ELSE IF kd = "bulk" THEN {Conn("TlsError"), Bulk({429, 503}), Ok, BulkS({429, 400}, "esmany"), ApiS(403, "list"), Bulk({409})}
     ELSE {Bulk({429}), ApiS(429, "errstr"), Ok, Bulk({400}), ApiS(500, "noerror"), Plain("transportOther")}
 AlphaPathsQ(kd) ==
-    IF kd = "plain" THEN {Plain("connTimeout"), ApiS(503, "str"), Ok}
-    ELSE IF kd = "bulk" THEN {Plain("connError"), Bulk({429, 503}), Ok}
+    IF kd = "plain" THEN {Timeout, ApiS(503, "str"), Ok}
+    ELSE IF kd = "bulk" THEN {Conn("TlsError"), Bulk({429, 503}), Ok}
     ELSE {Bulk({429}), ApiS(429, "errstr"), Ok}
 
 (* simulation: all transient letters with Elasticsearch-style bodies, one transient letter per other body shape  *)
@@ -41,7 +47,8 @@ ShapeSample == {ApiS(429, "errstr"), ApiS(502, "str"), ApiS(503, "str"), ApiS(50
                 ApiS(429, "empty"), ApiS(502, "notype"), ApiS(504, "noerror"), ApiS(503, "list")}
 AlphaHeavy(kd) == {o \in AlphaEs(kd) : IsTransient(o)} \cup ShapeSample
                   \cup {Ok, Api(401), ApiS(404, "str"), Plain("transportOther")}
-                  \cup (IF kd = "bulk" THEN {Bulk({429, 400}), Bulk({409}), BulkS({429}, "errstr"), BulkS({503, 504}, "errstr")}
+                  \cup (IF kd = "bulk" THEN {Bulk({429, 400}), Bulk({409}), BulkS({429}, "errstr"), BulkS({503, 504}, "errstr"),
+                                              BulkS({429, 503}, "esmany"), BulkS({429, 400}, "esmany"), BulkS({502, 409}, "esmany")}
                         ELSE IF kd = "bulk1" THEN {Bulk({400}), BulkS({429}, "errstr")} ELSE {})
 
 J0 == {0}
